@@ -1235,6 +1235,11 @@ func (fc *fnCtx) execSimple(st *State, fr *frame, ins ssa.Instruction, k func(*S
 		elem := ins.Type().(*types.Pointer).Elem()
 		r := fc.newObject(st, ins.Name(), ins.Type())
 		st.env[ins] = r
+		if ins.Heap && ins.Comment != "" && ins.Comment != "complit" && ins.Comment != "new" && ins.Comment != "slicelit" && ins.Comment != "makeslice" && ins.Comment != "varargs" {
+			// a source variable that lives in a heap cell (captured by a closure): in contracts its
+			// name denotes the cell's current content
+			st.names["&"+ins.Comment] = r
+		}
 		switch u := elem.Underlying().(type) {
 		case *types.Struct:
 			named, _ := derefNamed(ins.Type())
